@@ -51,7 +51,7 @@ func verifyFunc(P *Program, C *Contracts, fc *FuncContract) *Unit {
 	cover := u.oblige(u.Name+"#requires-sat", "cover", "the precondition is satisfiable", "true", nil)
 	cover.ExpectSat = true
 	cover.Vars = vars
-	if fc.HasMod && !fc.ModAll {
+	if fc.HasMod && !fc.ModAll && !fc.ModAuto {
 		fr.allow = u.computeAllowed(fr, fc, fn, args, st)
 	}
 	fr.run("true", st, args)
@@ -82,12 +82,25 @@ func verifyFunc(P *Program, C *Contracts, fc *FuncContract) *Unit {
 		o.Vars = vars
 		o.RInfo = rinfo
 	}
-	if fc.HasMod && !fc.ModAll {
+	if fc.HasMod && !fc.ModAll && !fc.ModAuto {
 		u.frameObligation(fr, fc, fn, args, st)
 	}
 	if len(fr.rets) > 0 {
 		o := u.oblige(u.Name+"#reach-end", "cover", "some return is reachable under the contract", or(reachAny...), nil)
 		o.ExpectSat = true
+	}
+	if fc.Harness != "" && fn.Pkg != nil {
+		for _, o := range u.obls {
+			if o.Kind == "ensures" || o.Kind == "assert" {
+				o.Harness = fc.Harness
+				o.HarnessPkg = fn.Pkg.Pkg.Path()
+			}
+		}
+	}
+	for _, cs := range fc.Calls {
+		if !cs.Hit {
+			u.problems = append(u.problems, fmt.Sprintf("call-site block 'at %s %d' matched no call in %s", cs.Callee, cs.Ordinal, fc.Key))
+		}
 	}
 	for _, p := range u.problems {
 		u.oblige(u.Name+"#contract-binding:"+shortHash(p), "contract-binding", "contract refers to the code as it is: "+p, "false", nil)
